@@ -162,6 +162,14 @@ def respond (line : String) : String :=
         | .error e => showCalcErr l e
         | .ok r => showReport r
     | _, _ => "bad-request"
+  | "cfg" :: year :: files =>
+    -- files in override_paths() order; "!" = absent or unparseable, otherwise k=v;k=v ("-" = empty table)
+    match parseInt? year, parseAll (fun f => if f = "!" then some none else (parseExemptions? f).map (fun t => some (t.filter (fun e => u16Key e.1)))) files with
+    | some y, some fs =>
+      match lookupExemption (loadWithOverrides exemptions (fs : List OverrideFile)) y with
+      | some a => s!"ok {showRat a}"
+      | none => "none"
+    | _, _ => "bad-request"
   | ["ord", d] =>
     match parseDate? d with
     | some d => s!"ok {d.ord} {if d.valid then 1 else 0}"
